@@ -456,8 +456,9 @@ def apply_answer_fault(answer_obj, fault, cfg):
 class _Reply:
     """What urlopen() returns, as far as callers may reasonably use it."""
 
-    def __init__(self, data, url=''):
+    def __init__(self, data, url='', incomplete_after=None):
         self.data = data
+        self.incomplete_after = incomplete_after
         self.pos = 0
         self.status = 200
         self.code = 200
@@ -470,6 +471,13 @@ class _Reply:
         self.headers['Content-Length'] = str(len(data))
 
     def read(self, n=-1):
+        if self.incomplete_after is not None:
+            # the connection drops inside the body
+            import http.client
+            k = min(self.incomplete_after, max(len(self.data) - 1, 0))
+            e = http.client.IncompleteRead(self.data[:k], len(self.data) - k)
+            e.sim_injected = True       # a planned fault, not a simulator bug
+            raise e
         if n is None or n < 0:
             out, self.pos = self.data[self.pos:], len(self.data)
         else:
@@ -676,6 +684,31 @@ class SimPeer:
         self.last_attempt_failed = False
         norm = {k: v for k, v in fields.items() if k != 'text'}
         norm['url'] = url
+        # the server is up and has answered the probe, but THIS request is
+        # answered badly at the HTTP level, every time it is tried: an error
+        # status with a body, a closed connection, a body shorter than
+        # announced (the invocation counter does not advance: a repetition of
+        # the request meets the same fault)
+        tf = self.cfg.get('faults', {}).get(str(self.invocations))
+        tf = tf if isinstance(tf, dict) else None
+        if tf and tf['kind'] in ('http_status', 'http_disconnect',
+                                 'http_incomplete'):
+            w.fire('answer_' + tf['kind'])
+            w.ev('urlopen', url=url, res=tf['kind'], t=w.clock.now)
+            if tf['kind'] == 'http_status':
+                import io as _io
+                raise urllib.error.HTTPError(
+                    url, tf.get('code', 500), 'Error', {},
+                    _io.BytesIO(b'Error: ' + str(tf.get('code', 500)).encode()))
+            if tf['kind'] == 'http_disconnect':
+                import http.client
+                raise http.client.RemoteDisconnected(
+                    'Remote end closed connection without response')
+            w.ev('submit', transport='http', url=url, fields=norm,
+                 language=language, text=text)
+            data = json.dumps(build_answer(text, language, opts_tag(norm),
+                                           dict(self.cfg))).encode()
+            return _Reply(data, incomplete_after=tf.get('after', 0))
         w.ev('submit', transport='http', url=url, fields=norm,
              language=language, text=text)
         return _Reply(self.answer(text, language, norm))
@@ -820,21 +853,75 @@ class _CommandProcess:
 #   in-memory network for --as-server
 # ---------------------------------------------------------------------
 
+class _ConnReader:
+    """What the server reads from a connection. The bytes of one request are
+    there from the start; when the server asks for more, the client decides:
+    it sends its next request on this connection only if it has received a
+    complete response that allows the connection to be kept (HTTP/1.1,
+    Content-Length, no 'Connection: close') - otherwise the server sees EOF
+    and the request arrives on a connection of its own."""
+
+    def __init__(self, conn):
+        self.conn = conn
+        self.buf = io.BytesIO(conn.data)
+        self.closed = False
+
+    def _more(self):
+        nxt = self.conn.net.reuse_connection(self.conn)
+        if nxt is None:
+            return False
+        self.buf = io.BytesIO(nxt)
+        return True
+
+    def readline(self, limit=-1):
+        b = self.buf.readline(limit)
+        if not b and self._more():
+            b = self.buf.readline(limit)
+        return b
+
+    def read(self, n=-1):
+        b = self.buf.read(n)
+        if not b and n != 0 and self._more():
+            b = self.buf.read(n)
+        return b
+
+    def readinto(self, mem):
+        b = self.read(len(mem))
+        mem[:len(b)] = b
+        return len(b)
+
+    def peek(self, n=0):
+        pos = self.buf.tell()
+        b = self.buf.read(n if n > 0 else 1)
+        self.buf.seek(pos)
+        return b
+
+    def flush(self):
+        pass
+
+    def close(self):
+        self.closed = True
+
+
 class _Conn:
     def __init__(self, net, idx, data):
         self.net = net
-        self.idx = idx
+        self.idx = idx          # request being served on this connection
         self.data = data
-        self.sent = b''
+        self.reported = False
+
+    @property
+    def sent(self):
+        return self.net.sent[self.idx]
 
     def makefile(self, mode='rb', bufsize=-1):
-        return io.BytesIO(self.data)
+        return _ConnReader(self)
 
     def sendall(self, b):
-        self.sent += bytes(b)
+        self.net.sent[self.idx] += bytes(b)
 
     def send(self, b):
-        self.sent += bytes(b)
+        self.net.sent[self.idx] += bytes(b)
         return len(b)
 
     def settimeout(self, t):
@@ -851,6 +938,28 @@ class _Conn:
 
     def close(self):
         pass
+
+
+def response_keeps_connection(resp):
+    """A well-behaved client re-uses a connection only after a complete
+    HTTP/1.1 response with a Content-Length and without 'Connection: close'."""
+    head, sep, body = resp.partition(b'\r\n\r\n')
+    if not sep:
+        return False
+    lines = head.split(b'\r\n')
+    if not lines[0].startswith(b'HTTP/1.1 '):
+        return False
+    hdr = {}
+    for ln in lines[1:]:
+        k, _, v = ln.partition(b':')
+        hdr[k.strip().lower()] = v.strip().lower()
+    if hdr.get(b'connection') == b'close':
+        return False
+    try:
+        n = int(hdr[b'content-length'])
+    except (KeyError, ValueError):
+        return False
+    return len(body) >= n
 
 
 class _ListenSocket:
@@ -911,7 +1020,7 @@ def build_request_bytes(req):
             'Content-Type: application/x-www-form-urlencoded']
     if kind != 'no_content_length':
         head.append('Content-Length: ' + str(clen))
-    head.append('Connection: close')
+    head.append('Connection: ' + req.get('conn', 'close'))
     return ('\r\n'.join(head) + '\r\n\r\n').encode('ascii') + body
 
 
@@ -922,38 +1031,71 @@ class SimNet:
         self.next = 0
         self.addr = ('localhost', 0)
         self.conns = []
+        self.sent = [b'' for _ in requests]
 
     def socket_factory(self, *a, **kw):
         return _ListenSocket(self)
 
-    def next_conn(self):
+    def _arrive(self, reused):
+        """Bookkeeping for the arrival of the next planned request."""
         req = self.requests[self.next]
         if req.get('files'):
             # files rewritten on disk before this request arrives
             self.world.fs.update(req['files'])
-        conn = _Conn(self, self.next, build_request_bytes(req))
-        self.conns.append(conn)
         fault = (req.get('fault') or {}).get('kind')
         if fault:
             self.world.fire('req_' + fault)
         if req.get('dup_of') is not None:
             self.world.fire('req_duplicate')
+        if reused:
+            self.world.fire('req_on_kept_connection')
         sys.stderr.flush()
         self.world.ev('accept', idx=self.next, client=req.get('client', 0),
-                      fault=fault, err=os.lseek(2, 0, os.SEEK_CUR))
+                      fault=fault, err=os.lseek(2, 0, os.SEEK_CUR),
+                      **({'kept': True} if reused else {}))
         self.next += 1
+        return req
+
+    def _report(self, conn):
+        if conn.reported:
+            return
+        conn.reported = True
+        sys.stderr.flush()
+        sent = self.sent[conn.idx]
+        self.world.ev('response', idx=conn.idx, nbytes=len(sent),
+                      sha=hashlib.sha1(sent).hexdigest()[:12],
+                      err=os.lseek(2, 0, os.SEEK_CUR))
+
+    def next_conn(self):
+        idx = self.next
+        req = self._arrive(False)
+        conn = _Conn(self, idx, build_request_bytes(req))
+        self.conns.append(conn)
         return conn, ('127.0.0.1', 40000 + req.get('client', 0))
 
+    def reuse_connection(self, conn):
+        """The server wants to read on: bytes of the next request if the
+        client sends it on this connection, else None (EOF)."""
+        if self.next >= len(self.requests):
+            return None
+        req = self.requests[self.next]
+        cur = self.requests[conn.idx]
+        if not req.get('keep') or req.get('client', 0) != cur.get('client', 0):
+            return None
+        if not response_keeps_connection(self.sent[conn.idx]):
+            return None
+        self._report(conn)
+        conn.idx = self.next
+        conn.reported = False
+        req = self._arrive(True)
+        return build_request_bytes(req)
+
     def serve_forever(self, server, poll_interval=0.5):
-        # the simulator's scheduler: one accept step per planned request
+        # the simulator's scheduler: one accept step per planned connection
         while self.next < len(self.requests):
             server._handle_request_noblock()
-            conn = self.conns[-1]
-            sys.stderr.flush()
-            self.world.ev('response', idx=conn.idx, nbytes=len(conn.sent),
-                          sha=hashlib.sha1(conn.sent).hexdigest()[:12],
-                          err=os.lseek(2, 0, os.SEEK_CUR))
+            self._report(self.conns[-1])
         self.world.ev('server_idle')
 
     def responses(self):
-        return [c.sent for c in self.conns]
+        return list(self.sent[:self.next])
